@@ -77,6 +77,8 @@ class Linalg:
     def norm(self, a, axis=None):
         if not has_sym(a):
             return _np.linalg.norm(a, axis=axis)
+        if hasattr(a, "_map") and axis == 1:
+            return a._map(lambda r: _norm1(obj(r)), ())
         a = obj(a)
         if axis is None:
             return _norm1(a.reshape(-1))
@@ -303,7 +305,9 @@ class NPShim:
             if a.size == 0:
                 return 0
             if all(isinstance(x, (SB, bool, _np.bool_)) for x in a.reshape(-1)) and axis is None:
-                return int(sum(1 for x in a.reshape(-1) if bool(x)))  # forks on undecided flags
+                if cur().ghost.get("concretize_bool_sums"):
+                    return int(sum(1 for x in a.reshape(-1) if bool(x)))  # forks on undecided flags
+                return SR(z3.Sum([z3.If(z3bool(x), z3.IntVal(1), z3.IntVal(0)) for x in a.reshape(-1)]))
             return a.sum(axis=axis)
         return _np.sum(a, axis=axis)
 
